@@ -66,7 +66,49 @@ def r17_2(ctx: Ctx) -> None:
     ctx.ob("R17.2", REC, func, "Record.to_biopython", "features sorted", ok, "features are written in sorted order", form="")
 
 
+COLL = "antismash/common/secmet/features/cdscollection.py"
+
+
+def r17_3(ctx: Ctx) -> None:
+    """ sorting sets of areas is only deterministic if `<` is a strict order: a one-sided shortcut `return True` under an
+        asymmetric predicate P(self, other) needs the mirrored `return False` under P(other, self) before the general
+        comparison, otherwise a < b and b < a can both hold and sorted() returns whatever order the (id-hashed) set gave """
+    import re
+    from ..cfg import CFG
+    from ..flow import path_facts
+    for rel, qual in ((COLL, "CDSCollection.__lt__"),):
+        func = ctx.fn(rel, qual)
+        cfg = CFG(func)
+        other_loc = next((t.id for n in walk_local(func) if isinstance(n, ast.Assign) and txt(n.value).endswith(".location")
+                          for t in n.targets if isinstance(t, ast.Name)), "location")
+
+        def swap(text: str) -> str:
+            text = re.sub(r"\bself\.location\b", "\0", text)
+            text = re.sub(rf"\b{other_loc}\b", "self.location", text)
+            return text.replace("\0", other_loc)
+
+        def located(ret: ast.Return):
+            return {(txt(e), t) for e, t in path_facts(cfg, ret) if ".contains(" in txt(e)}
+        trues = [r for r in walk_local(func) if isinstance(r, ast.Return) and isinstance(r.value, ast.Constant) and r.value.value is True
+                 and located(r)]
+        falses = [r for r in walk_local(func) if isinstance(r, ast.Return) and isinstance(r.value, ast.Constant) and r.value.value is False]
+        if not trues:
+            ctx.ob("R17.3", rel, func, qual, "no one-sided containment shortcut", True,
+                   "the comparison has no shortcut on an asymmetric predicate", form="", vacuous=True)
+        for index, ret in enumerate(trues):
+            wanted = {(swap(text), truth) for text, truth in located(ret)}
+            mirrored = any(wanted <= located(f) for f in falses)
+            ctx.ob("R17.3", rel, ret, qual, f"containment shortcut#{index} mirrored", mirrored,
+                   "`self < other` by containment is matched by `not (other < self)` for the same pair, so that `<` is a strict order "
+                   "and sorting a set of areas does not depend on the set's iteration order",
+                   detail="" if mirrored else "the area [0:1000) contains join{[900:1000),[0:100)} and sorts before it by the shortcut, while "
+                   "the origin-crossing area sorts before the other by its negative start: a < b and b < a, and sorted({a, b, c}) "
+                   "depends on the input order", form="; ".join(("" if t else "not ") + x for x, t in sorted(located(ret))))
+
+
 def run(ctx: Ctx) -> None:
+    ctx.rule("R17.3", "area ordering is a strict order: containment shortcuts are mirrored", floor=1)
+    r17_3(ctx)
     files = scope(ctx)
     if len(files) < 30:
         raise AnalysisError(f"C17 scope shrank to {len(files)} modules")
